@@ -919,7 +919,9 @@ def enumerate_table(tier):
                     continue
                 if tier == 'quick' and (i + j + k) % 2:
                     continue  # half of the grid in the quick tier (every string, start and mode still occurs)
-                yield dict(mfl=i, start=j, mode=k)
+                yield dict(mfl=i, start=j, mode=k, base=0)
+                if 'MET' in text and 'PERIPHERALS' in text:
+                    yield dict(mfl=i, start=j, mode=k, base=1)
 
 
 def _single_statement(key):
@@ -957,18 +959,22 @@ def run_table(spec):
         if not items:
             raise Reject('empty table')
         # start models: PK entries on the corpus model; metabolite-peripheral entries on the model with a metabolite
-        # without and with one metabolite peripheral
-        bases = {'pk': [('', base)]}
+        # without (base=0) or with one metabolite peripheral (base=1; PK entries are then skipped)
+        with_met_peripheral = bool(spec.get('base'))
+        bases = {'pk': [] if with_met_peripheral else [('', base)]}
         if any(k[0] == 'PERIPHERALS' and len(k) == 3 for k, _ in items):
             try:
                 met = guard(pm.add_metabolite, base, allowed=allowed(), clause='not-total:add_metabolite')
                 bases['met'] = [('+metabolite', met)]
-                try:
-                    met1 = guard(pm.add_peripheral_compartment, met, 'METABOLITE', allowed=allowed(), clause='not-total:add_peripheral_compartment')
-                    bases['met'].append(('+metabolite+1 metabolite peripheral', met1))
-                except Reject:
-                    classes.append('metabolite-peripheral-refused')
-            except Reject:
+                if with_met_peripheral:
+                    try:
+                        met1 = guard(pm.add_peripheral_compartment, met, 'METABOLITE', allowed=allowed(), clause='not-total:add_peripheral_compartment')
+                        bases['met'] = [('+metabolite+1 metabolite peripheral', met1)]
+                    except Reject:
+                        raise Reject('metabolite peripheral refused')
+            except Reject as r:
+                if with_met_peripheral:
+                    raise
                 classes.append('metabolite-refused')
         rendered = []
         for key, fn in items:
@@ -1125,8 +1131,16 @@ def run_met(spec):
                 v.detail = f'{ctx}; {v.detail}'
                 raise
             evals += 1
+            # situation marker in the clauses of metabolite requests: does the drug have as many peripherals as the
+            # metabolite before the request (sit) / after it, i.e. when the request is repeated or undone (sit2)
+            who = 'drug'
+            who2 = 'drug'
+            if req.cat == 'PERIPHERALS_MET':
+                who = 'met:drug-count-' + ('equal' if d0['PERIPHERALS'] == (d0['PERIPHERALS_MET'] or 0) else 'unequal')
+                who2 = 'met:drug-count-' + ('equal' if d1['PERIPHERALS'] == (d1['PERIPHERALS_MET'] or 0) else 'unequal')
             v = check_requested(req, d0, d1, m1)
             if v is not None:
+                v.clause = f'{v.clause}:{who}'
                 v.detail = f'{ctx}; compartments {list(d1["compartments"])}; {v.detail}'
                 raise v
             for cat in ('PERIPHERALS', 'PERIPHERALS_MET', 'ABSORPTION', 'ELIMINATION', 'TRANSITS', 'LAGTIME', 'BIO'):
@@ -1155,7 +1169,7 @@ def run_met(spec):
                     res = equiv(m1, m2, pts)
                     evals += 1
                     if res is not None and res[0] not in ('unsupported', 'renamed'):
-                        raise Violation(f'idempotence:function:{req.label}:{_kind(res[0])}', observed=res[1], expected=res[2], detail=f'{ctx} then {req.label} again: {res[0]}')
+                        raise Violation(f'idempotence:function:{who2}:{req.label}:{_kind(res[0])}', observed=res[1], expected=res[2], detail=f'{ctx} then {req.label} again: {res[0]}')
             # reversibility: set n -> set n0, add -> remove (documented inverse pairs, "See also")
             before = d0[req.cat] or 0
             after = d1[req.cat] or 0
@@ -1183,7 +1197,7 @@ def run_met(spec):
                         classes.append('undo-up-to-renaming')
                     elif res is not None and res[0] != 'unsupported':
                         raise Violation(
-                            f'reversible:{req.label}->{u.label}:{_kind(res[0])}', observed=res[1], expected=res[2],
+                            f'reversible:{who2}:{req.label}->{u.label}:{_kind(res[0])}', observed=res[1], expected=res[2],
                             detail=f'{ctx} then {u.label} does not restore the model before {req.label}: {res[0]} (observed = after undo, expected = before)',
                         )
             # codegen
@@ -1273,7 +1287,15 @@ def _inst_after_lag(spec):
     return False
 
 
+def _met_labels(spec):
+    t = _met_requests()
+    return [t[int(i) % len(t)].label for i in (spec.get('reqs') or [])[:6]]
+
+
 KNOWN_PREDICATES = {
+    'table_base_has_metabolite_peripheral': lambda spec: bool(spec.get('base')),
+    'met_set_request': lambda spec: any(lab.startswith('PERIPHERALS(') and lab.endswith(',MET)') for lab in _met_labels(spec)),
+    'drug_peripheral_request': lambda spec: any(lab in ('PERIPHERALS(0)', 'PERIPHERALS(1)', 'PERIPHERALS(2)', 'add_peripheral_compartment()', 'remove_peripheral_compartment()') for lab in _met_labels(spec)),
     'nonmem_nonlinear_elimination_back_to_fo': _nonmem_nonlinear_elimination_back_to_fo,
     'inst_after_lag': _inst_after_lag,
     'inst_after_seq': _inst_after_seq,
@@ -1338,7 +1360,7 @@ def selfcheck():
 
 
 SUBCHECKS = [
-    SubCheck('sequences', lambda: _strategy(4), run_sequence, quick=2600, thorough=12000),
+    SubCheck('sequences', lambda: _strategy(4), run_sequence, quick=2200, thorough=12000),
     # lag time / bioavailability first, then absorption and transit requests
     SubCheck('dose_attributes', lambda: _strategy_dose_attributes(5), run_sequence, quick=640, thorough=4000),
     # longer histories only in the thorough tier
